@@ -10,6 +10,7 @@ mod input;
 mod interp;
 mod pairs;
 mod planobs;
+mod polobs;
 mod sat;
 mod types;
 mod uni;
@@ -48,6 +49,7 @@ fn main() {
             "pairs" => pairs::run_case(&u, &case),
             "interp" => interp::run_case(&u, &case),
             "plan" => planobs::run_case(&u, &case),
+            "policy" => polobs::run_case(&u, &case),
             _ => {
                 eprintln!("unknown command {}", cmd);
                 std::process::exit(2);
